@@ -1282,5 +1282,262 @@ theorem walk_locks {p : Proc N} (hwf : wfProc p = true) {c : N} {w : List (UnitM
 
 end walks
 
+/-! ## 6. The host invariant: where the locks of a hosted instruction's walk are, and what has been granted -/
+
+section hosts
+omit [LT N] [DecidableRel (α := N) (· < ·)]
+
+/-- if `x` is hosted by unit `u` in a record without doubly hosted indices, the record shows access `k` of `x.idx`
+exactly when `u` holds lock `k` and `x` is unstalled -/
+theorem accIn_eq_of_hosted {p : Proc N} (hn : (p.allUnits.map (·.name)).Nodup) {row : Util N} (hnd : RowND row)
+    {u : UnitM N} (hu : u ∈ p.allUnits) {x : HI} (hx : x ∈ row.get u.name) (k : Bool) :
+    accIn p row k x.idx = (lockOf k u && x.st == .U) := by
+  rw [Bool.eq_iff_iff, accIn_iff]
+  constructor
+  · rintro ⟨v, hv, hl, hm⟩
+    have hname : v.name = u.name := hnd.unique_host v.name u.name x.idx
+      (List.mem_map.2 ⟨_, hm, rfl⟩) (List.mem_map.2 ⟨x, hx, rfl⟩)
+    have hvu : v = u := unit_eq_of_name_eq hn hv hu hname
+    subst hvu
+    have : (⟨x.idx, .U⟩ : HI) = x := eq_of_map_eq_of_nodup' (·.idx) (hnd.nodup_unit v.name) hm hx rfl
+    rw [← this]; simp [hl]
+  · intro h
+    simp only [Bool.and_eq_true, beq_iff_eq] at h
+    refine ⟨u, hu, h.1, ?_⟩
+    have : (⟨x.idx, .U⟩ : HI) = x := by cases x; simp_all
+    rw [this]; exact hx
+
+/-- no row of `tbl` hosts index `i` ⇒ nothing of `i` has been granted -/
+theorem grantedB_eq_false_of_not_hosted {p : Proc N} {tbl : List (Util N)} {i : Nat}
+    (h : ∀ row ∈ tbl, ∀ n, ∀ x ∈ row.get n, x.idx ≠ i) (k : Bool) : grantedB p tbl k i = false := by
+  unfold grantedB
+  rw [List.any_eq_false]
+  intro row hrow hacc
+  obtain ⟨u, _, _, hm⟩ := accIn_iff.1 hacc
+  exact h row hrow u.name _ hm rfl
+
+theorem wasLoaded_eq_of_mem {l : List HI} (hnd : (l.map (·.idx)).Nodup) {y : HI} (hy : y ∈ l) :
+    wasLoaded l y.idx = (y.st != .D) := by
+  rw [Bool.eq_iff_iff, wasLoaded_iff]
+  constructor
+  · rintro ⟨o, ho, hoi, hod⟩
+    have : o = y := eq_of_map_eq_of_nodup' (·.idx) hnd ho hy hoi
+    subst this; simpa using hod
+  · intro h; exact ⟨y, hy, rfl, by simpa using h⟩
+
+theorem wasLoaded_eq_false_of_not_mem {l : List HI} {i : Nat} (h : ∀ y ∈ l, y.idx ≠ i) : wasLoaded l i = false := by
+  cases hw : wasLoaded l i with
+  | false => rfl
+  | true =>
+    obtain ⟨o, ho, hoi, _⟩ := (wasLoaded_iff l i).1 hw
+    exact absurd hoi (h o ho)
+
+/-- **Facts about one hosted instruction** `x` in unit `u`, w.r.t. the recorded rows `tbl`: it has walked from an
+input-boundary port along declared connections through units `w` supporting its capability, and access `k` has been
+granted to it iff it has passed (or is past the examination in) a unit holding lock `k`. -/
+def HostOK (p : Proc N) (prog : List (Instr N)) (tbl : List (Util N)) (u : UnitM N) (x : HI) : Prop :=
+  ∃ ins w, prog[x.idx]? = some ins ∧ IsWalk p ins.cap (w ++ [u]) ∧
+    (∃ v0 ∈ p.inBoundary, (w ++ [u]).head? = some v0) ∧
+    ∀ k, grantedB p tbl k x.idx = (w.any (lockOf k) || (lockOf k u && x.st != .D))
+
+/-- the host invariant -/
+def HazInv (p : Proc N) (prog : List (Instr N)) (s : SimState N) : Prop :=
+  ∀ u ∈ p.allUnits, ∀ x ∈ s.util.get u.name, HostOK p prog s.table u x
+
+theorem HazInv.init (p : Proc N) (prog : List (Instr N)) : HazInv p prog (initState prog) := by
+  intro u _ x hx
+  simp [initState] at hx
+
+theorem capIn_eq_true {prog : List (Instr N)} {i : Nat} {caps : List N} (h : capIn prog i caps = true) :
+    ∃ ins, prog[i]? = some ins ∧ ins.cap ∈ caps := by
+  unfold capIn at h
+  cases hp : prog[i]? with
+  | none => simp [hp] at h
+  | some ins => exact ⟨ins, rfl, by simpa [hp] using h⟩
+
+/-- **Walk of an arriving or staying instruction.** Whatever the origin of instruction `i` in unit `u` of the next
+record (stayed / moved / issued), it has a walk ending in `u`, and access `k` has been granted to it so far iff a unit
+before `u` on the walk holds lock `k`, or `u` does and `i` was already loaded there. -/
+theorem origin_walk {p : Proc N} {prog : List (Instr N)} (hwf : wfProc p = true) {s : SimState N}
+    (hc : CoreInv p prog s) (hh : HazInv p prog s) {u : UnitM N} (hu : u ∈ p.allUnits) {i e' : Nat}
+    (ho : Stayed p s.util u.name i ∨ Moved p prog s.util u.name i ∨ Issued p prog s.entered e' u.name i) :
+    ∃ ins w, prog[i]? = some ins ∧ IsWalk p ins.cap (w ++ [u]) ∧
+      (∃ v0 ∈ p.inBoundary, (w ++ [u]).head? = some v0) ∧
+      ∀ k, grantedB p s.table k i = (w.any (lockOf k) || (lockOf k u && wasLoaded (s.util.get u.name) i)) := by
+  have hn := wfProc_nodup_names hwf
+  rcases ho with ⟨y, hy, hyi, _⟩ | ⟨d, hd, hdn, q, hq, y, hy, hyi, hyd, hcap⟩ | ⟨hge, _, port, hport, hpn, hcap⟩
+  · -- stayed
+    obtain ⟨ins, w, hins, hwalk, hstart, hg⟩ := hh u hu y hy
+    subst hyi
+    refine ⟨ins, w, hins, hwalk, hstart, fun k => ?_⟩
+    rw [hg k, wasLoaded_eq_of_mem (hc.nd.nodup_unit u.name) hy]
+  · -- moved from `q`
+    have hqne : s.util.get q ≠ [] := fun e => by rw [e] at hy; cases hy
+    obtain ⟨uq, huq, huqn⟩ := List.mem_map.1 (hc.row.names q hqne)
+    subst huqn
+    obtain ⟨ins, w, hins, hwalk, hstart, hg⟩ := hh uq huq y hy
+    subst hyi
+    have hdu : d.model = u := unit_eq_of_name_eq hn (model_mem_allUnits_of_mem_dests hd) hu hdn
+    obtain ⟨ins', hins', hcap'⟩ := capIn_eq_true hcap
+    rw [hins] at hins'; cases hins'
+    refine ⟨ins, w ++ [uq], hins, hwalk.snoc (mem_succsOf'.2 ⟨d, hd, hq, hdu⟩) (hdu ▸ hcap'), ?_, fun k => ?_⟩
+    · obtain ⟨v0, hv0, hhead⟩ := hstart
+      refine ⟨v0, hv0, ?_⟩
+      rw [List.head?_append, hhead]; rfl
+    · have hwl : wasLoaded (s.util.get u.name) y.idx = false := by
+        apply wasLoaded_eq_false_of_not_mem
+        intro z hz hzi
+        have : u.name = uq.name := hc.nd.unique_host u.name uq.name y.idx
+          (List.mem_map.2 ⟨z, hz, hzi⟩) (List.mem_map.2 ⟨y, hy, rfl⟩)
+        exact wfProc_self_not_pred hwf d hd (by rw [hdn, this]; exact hq)
+      rw [hg k, hwl, List.any_append]
+      have : (y.st != .D) = true := by simpa using hyd
+      simp [this]
+  · -- issued in this cycle
+    have hpu : port = u := unit_eq_of_name_eq hn (mem_allUnits_of_mem_inBoundary hport) hu hpn
+    subst hpu
+    obtain ⟨ins, hins, hcap'⟩ := capIn_eq_true hcap
+    refine ⟨ins, [], hins, hcap', ⟨port, hport, rfl⟩, fun k => ?_⟩
+    have h1 : grantedB p s.table k i = false := by
+      apply grantedB_eq_false_of_not_hosted
+      intro row hrow n x hx hxi
+      have := (hc.rows row hrow).idx_lt n x hx
+      omega
+    have h2 : wasLoaded (s.util.get port.name) i = false := by
+      apply wasLoaded_eq_false_of_not_mem
+      intro z hz hzi
+      have := hc.row.idx_lt _ z hz
+      omega
+    rw [h1, h2]; simp
+
+end hosts
+
+/-- **The host invariant is preserved by a cycle.** -/
+theorem HazInv.step {p : Proc N} {prog : List (Instr N)} (hwf : wfProc p = true) {s s' : SimState N}
+    (hc : CoreInv p prog s) (hh : HazInv p prog s) (hs : runCycle p prog s = .ok (some s')) : HazInv p prog s' := by
+  have hc' := hc.step_wf hwf hs
+  obtain ⟨lab, qs, hlab, _, _, rfl⟩ := runCycle_eq_some hs
+  have hn := wfProc_nodup_names hwf
+  have hF := fillCycle_issueInv prog s.util s.entered hn (wfProc_orderOK hwf)
+  intro u hu x hx
+  obtain ⟨y, hy, rfl⟩ := (mem_labelled hn hlab hu).1 hx
+  obtain ⟨ins, w, hins, hwalk, hstart, hg⟩ := origin_walk hwf hc hh hu (hF.origin u.name y hy)
+  refine ⟨ins, w, hins, hwalk, hstart, fun k => ?_⟩
+  show grantedB p (lab.1 :: s.table) k y.idx = _
+  have hacc := accIn_eq_of_hosted hn hc'.nd hu hx k
+  simp only at hacc
+  rw [grantedB_cons, hacc, hg k]
+  have hS := labelOf_eq_S_iff prog s.queues u (s.util.get u.name) y.idx
+  generalize lockOf k u = L
+  generalize w.any (lockOf k) = W
+  cases hl : labelOf prog s.queues u (s.util.get u.name) y.idx <;>
+    cases hw : wasLoaded (s.util.get u.name) y.idx <;> simp [hl, hw] at hS ⊢ <;>
+    cases L <;> cases W <;> rfl
+
+/-- **What is known when an instruction is examined** (hosted in the next record and not yet loaded in its unit): no
+access of a kind its unit locks has been granted to it before, and in a unit holding only the write lock its read access
+has been granted. -/
+theorem examined_facts {p : Proc N} {prog : List (Instr N)} (hwf : wfProc p = true) {s : SimState N}
+    (hc : CoreInv p prog s) (hh : HazInv p prog s) {u : UnitM N} (hu : u ∈ p.allUnits) {x : HI}
+    (hx : x ∈ (fillCycle p prog s.util s.entered).1.get u.name)
+    (hwl : wasLoaded (s.util.get u.name) x.idx = false) :
+    (u.rd = true → grantedB p s.table false x.idx = false) ∧
+    (u.wr = true → grantedB p s.table true x.idx = false) ∧
+    (u.wr = true → u.rd = false → grantedB p s.table false x.idx = true) := by
+  have hn := wfProc_nodup_names hwf
+  have hF := fillCycle_issueInv prog s.util s.entered hn (wfProc_orderOK hwf)
+  obtain ⟨ins, w, hins, hwalk, hstart, hg⟩ := origin_walk hwf hc hh hu (hF.origin u.name x hx)
+  obtain ⟨h1, h2, h3⟩ := walk_locks hwf hwalk hstart
+  have e1 : w.any (lockOf false) = w.any (·.rd) := rfl
+  have e2 : w.any (lockOf true) = w.any (·.wr) := rfl
+  refine ⟨fun hr => ?_, fun hw => ?_, fun hw hr => ?_⟩
+  · rw [hg false, hwl, e1, h1 hr]; simp
+  · rw [hg true, hwl, e2, h2 hw]; simp
+  · rw [hg false, hwl, e1, h3 hw hr]; simp
+
+theorem HazInv.readFirst {p : Proc N} {prog : List (Instr N)} (hwf : wfProc p = true) {s : SimState N}
+    (hc : CoreInv p prog s) (hh : HazInv p prog s) : ReadFirst p prog s :=
+  fun _ hu hw hr _ hx hwl => (examined_facts hwf hc hh hu hx hwl).2.2 hw hr
+
+/-! ## 7. The combined invariant and its lifting to the rows of a diagram -/
+
+/-- everything the hazard proofs need about a reachable state -/
+structure HazardInv (p : Proc N) (prog : List (Instr N)) (s : SimState N) : Prop where
+  core : CoreInv p prog s
+  plan : PlanInv p prog s
+  host : HazInv p prog s
+
+theorem HazardInv.init (p : Proc N) (prog : List (Instr N)) : HazardInv p prog (initState prog) :=
+  ⟨CoreInv.init p prog, PlanInv.init p prog, HazInv.init p prog⟩
+
+theorem HazardInv.step {p : Proc N} {prog : List (Instr N)} (hwf : wfProc p = true) (hprog : ProgOK prog)
+    {s s' : SimState N} (h : HazardInv p prog s) (hs : runCycle p prog s = .ok (some s')) : HazardInv p prog s' :=
+  ⟨h.core.step_wf hwf hs, h.plan.step hwf hprog h.core (h.host.readFirst hwf h.core) hs, h.host.step hwf h.core hs⟩
+
+/-- every row of a newest-first table was produced by a successful cycle from an `Inv`-state whose table consists of
+the older rows -/
+def RowsOK (p : Proc N) (prog : List (Instr N)) (Inv : SimState N → Prop) : List (Util N) → Prop
+  | [] => True
+  | r :: rest =>
+    (∃ s s', Inv s ∧ s.table = rest ∧ runCycle p prog s = .ok (some s') ∧ s'.util = r ∧ s'.table = r :: rest) ∧
+    RowsOK p prog Inv rest
+
+theorem RowsOK.row {p : Proc N} {prog : List (Instr N)} {Inv : SimState N → Prop} {table : List (Util N)}
+    (h : RowsOK p prog Inv table) :
+    ∀ t, t < table.length → ∃ s s', Inv s ∧ s.table = (table.reverse.take t).reverse ∧
+      runCycle p prog s = .ok (some s') ∧ s'.util = table.reverse.getD t ([] : List (N × List HI)) ∧
+      s'.table = (table.reverse.take (t + 1)).reverse := by
+  induction table with
+  | nil => intro t ht; simp at ht
+  | cons r rest ih =>
+    obtain ⟨h1, h2⟩ := h
+    intro t ht
+    simp only [List.length_cons] at ht
+    by_cases hlt : t < rest.length
+    · obtain ⟨s, s', a, b, c, d, e⟩ := ih h2 t hlt
+      refine ⟨s, s', a, ?_, c, ?_, ?_⟩
+      · rw [b, List.reverse_cons, List.take_append_of_le_length (by simp; omega)]
+      · rw [d, List.reverse_cons, List.getD_eq_getElem?_getD, List.getD_eq_getElem?_getD,
+          List.getElem?_append_left (by simpa using hlt)]
+      · rw [e, List.reverse_cons, List.take_append_of_le_length (by simp; omega)]
+    · have e : t = rest.length := by omega
+      subst e
+      obtain ⟨s, s', a, b, c, d, e⟩ := h1
+      refine ⟨s, s', a, ?_, c, ?_, ?_⟩
+      · rw [b, List.reverse_cons, List.take_append_of_le_length (by simp)]
+        rw [show rest.length = rest.reverse.length by simp, List.take_length, List.reverse_reverse]
+      · rw [d, List.reverse_cons, List.getD_eq_getElem?_getD]
+        rw [List.getElem?_append_right (by simp)]; simp
+      · rw [e, List.reverse_cons]
+        rw [show rest.length + 1 = (rest.reverse ++ [r]).length by simp, List.take_length]
+        simp
+
+/-- **Per-row lifting principle.** For an invariant `Inv` of `runCycle`, every row `t` of every diagram was produced
+by a successful cycle from an `Inv`-state whose table holds exactly the rows before `t`. -/
+theorem simulate_rows {p : Proc N} {prog : List (Instr N)} (Inv : SimState N → Prop) (h0 : Inv (initState prog))
+    (hstep : ∀ s s', Inv s → runCycle p prog s = .ok (some s') → Inv s') :
+    ∀ tbl stalled, Diagram p prog tbl stalled → ∀ t, t < tbl.length →
+      ∃ s s', Inv s ∧ s.table = (tbl.take t).reverse ∧ runCycle p prog s = .ok (some s') ∧
+        s'.util = tbl.getD t ([] : List (N × List HI)) ∧ s'.table = (tbl.take (t + 1)).reverse := by
+  intro tbl stalled hd
+  obtain ⟨s, ⟨_, hrows⟩, ht, _⟩ := simulate_induction (p := p) (prog := prog)
+    (fun s => Inv s ∧ RowsOK p prog Inv s.table) ⟨h0, trivial⟩
+    (fun s s' hs hr => by
+      refine ⟨hstep s s' hs.1 hr, ?_⟩
+      obtain ⟨lab, qs, _, _, _, e⟩ := runCycle_eq_some hr
+      subst e
+      exact ⟨⟨s, _, hs.1, rfl, hr, rfl, rfl⟩, hs.2⟩)
+    tbl stalled hd
+  subst ht
+  intro t hlt
+  exact hrows.row t (by simpa using hlt)
+
+/-- the rows of every diagram come from `HazardInv` states -/
+theorem Diagram_hazard_rows {p : Proc N} {prog : List (Instr N)} (hwf : wfProc p = true) (hprog : ProgOK prog)
+    {tbl : List (Util N)} {stalled : Bool} (hd : Diagram p prog tbl stalled) {t : Nat} (ht : t < tbl.length) :
+    ∃ s s', HazardInv p prog s ∧ s.table = (tbl.take t).reverse ∧ runCycle p prog s = .ok (some s') ∧
+      s'.util = tbl.getD t ([] : List (N × List HI)) ∧ s'.table = (tbl.take (t + 1)).reverse :=
+  simulate_rows (HazardInv p prog) (HazardInv.init p prog) (fun _ _ h hs => h.step hwf hprog hs) tbl stalled hd t ht
+
 end Hazards
 end ProcSim
